@@ -1,7 +1,7 @@
 (* C19 - shape of the outline entries: every entry is `var_sym` of a variable stored in the symbol tables, and the
-   range rule of the repaired code (fx = true): an entry that is not function-valued starts at its declaring
-   identifier and extends to the largest end among itself and its children. These lemmas hold for EVERY state
-   (no hypothesis on the program). *)
+   range rules of the repaired code (fx_all): a function-valued entry is the Union of the function literal and the
+   declaring identifier, an entry with children the Union of its identifier and all children (the smallest range that
+   contains them). These lemmas hold for EVERY state (no hypothesis on the program). *)
 From Coq Require Import List NArith ZArith Bool Lia ZifyBool.
 From LH Require Import Base.Bytes Base.Res Model.Lexer Model.Ast Model.Symbols Spec.SymbolSpec.
 Import ListNotations.
@@ -71,20 +71,27 @@ Proof.
   injection H as <-. apply in_rev. rewrite E. left; reflexivity.
 Qed.
 
-Lemma listed_locals_in : forall vars nm v,
-    In (nm, v) (listed_locals vars) -> exists vs, In (nm, vs) vars /\ last_var vs = Some v /\ v_param v = false.
+Lemma listed_of_in : forall fx vs v, In v (listed_of fx vs) -> In v vs /\ v_param v = false.
 Proof.
-  intros vars nm v H. unfold listed_locals in H. apply in_flat_map in H. destruct H as [[k vs] [Hin H]].
-  cbn [fst snd] in H. destruct (last_var vs) as [v0|] eqn:E; [|destruct H].
-  destruct (v_param v0) eqn:Ep; [destruct H|]. destruct H as [H|[]]. injection H as <- <-.
-  exists vs. auto.
+  intros fx vs v H. unfold listed_of in H. apply filter_In in H. destruct H as [H Hp].
+  split; [|destruct (v_param v); [discriminate | reflexivity]].
+  destruct (fx_alldecl fx); [exact H|]. destruct (last_var vs) as [v0|] eqn:E; [|destruct H].
+  destruct H as [<-|[]]. apply last_var_in. exact E.
+Qed.
+
+Lemma listed_locals_in : forall fx vars nm v,
+    In (nm, v) (listed_locals fx vars) -> exists vs, In (nm, vs) vars /\ In v (listed_of fx vs) /\ v_param v = false.
+Proof.
+  intros fx vars nm v H. unfold listed_locals in H. apply in_flat_map in H. destruct H as [[k vs] [Hin H]].
+  cbn [fst snd] in H. apply in_map_iff in H. destruct H as [v0 [Heq Hv0]]. injection Heq as <- <-.
+  exists vs. split; [exact Hin|]. split; [exact Hv0|]. apply (listed_of_in fx vs v0 Hv0).
 Qed.
 
 Lemma find_all_local_unfold : forall fx gs f vars subs,
     find_all_local fx gs (Scope f vars subs) =
-    map (fun kv => var_sym fx true (fst kv) (snd kv)) (listed_locals vars) ++
+    map (fun kv => var_sym fx true (fst kv) (snd kv)) (listed_locals fx vars) ++
     flat_map (fun sub => match s_fid sub with
-                         | Some id => if memN id (gs ++ flat_map (fun kv => claimed_fids (snd kv)) (listed_locals vars))
+                         | Some id => if memN id (gs ++ flat_map (fun kv => claimed_fids (snd kv)) (listed_locals fx vars))
                                       then [] else find_all_local fx [] sub
                          | None => find_all_local fx [] sub
                          end) subs.
@@ -103,7 +110,7 @@ Proof.
     apply listed_locals_in in Hl. destruct Hl as [vs [Hvs [Hlast Hp]]].
     exists nm, v. split; [|split; [exact Hp | symmetry; exact Heq]].
     rewrite Forall_forall in Hv. specialize (Hv _ Hvs). cbn [snd] in Hv. rewrite Forall_forall in Hv.
-    apply Hv. apply last_var_in. exact Hlast.
+    apply Hv. apply (listed_of_in fx vs v Hlast).
   - apply in_flat_map in Hin. destruct Hin as [sub [Hsub Hin]].
     rewrite Forall_forall in IH, Hs. specialize (IH _ Hsub). specialize (Hs _ Hsub).
     destruct (s_fid sub) as [id|].
@@ -111,15 +118,49 @@ Proof.
     + eapply IH; eauto.
 Qed.
 
-Lemma find_all_symbol_entry : forall (Q : vinfo -> Prop) fx st s,
-    scope_all Q (main_scope st) -> Forall (fun kv => Q (snd kv)) (globs st) ->
-    In s (find_all_symbol fx st) ->
-    exists lc nm v, Q v /\ s = var_sym fx lc nm v.
+(* the ghost mark of an entry; every projection the theorems read is unchanged by it *)
+Definition set_undecl (u : bool) (s : sym) : sym :=
+  mkS (s_key s) (s_name s) (s_fn s) (s_loc s) (s_decl s) (s_children s) (s_local s) u.
+
+Lemma var_sym_set_undecl : forall fx lc nm v, set_undecl false (var_sym fx lc nm v) = var_sym fx lc nm v.
+Proof. intros. unfold var_sym. destruct (v_func v); [reflexivity|]. destruct (v_sub v); reflexivity. Qed.
+
+Lemma undeclared_syms_in : forall fx st s,
+    In s (undeclared_syms fx st) ->
+    fx_undecl fx = true /\
+    exists nm v, In (nm, v) (nodefs st) /\ assoc_mem nm (globs st) = false /\ v_sub v <> [] /\
+                 s = set_undecl true (var_sym fx false nm v).
 Proof.
-  intros Q fx st s Hm Hg Hin. unfold find_all_symbol in Hin. apply in_app_or in Hin. destruct Hin as [Hin|Hin].
-  - destruct (find_all_local_entry Q fx _ _ _ Hm Hin) as [nm [v [HQ [_ Heq]]]]. exists true, nm, v. auto.
-  - apply in_map_iff in Hin. destruct Hin as [[nm v] [Heq Hl]]. cbn [fst snd] in Heq.
-    rewrite Forall_forall in Hg. specialize (Hg _ Hl). exists false, nm, v. auto.
+  intros fx st s H. unfold undeclared_syms in H. destruct (fx_undecl fx); [|destruct H]. split; [reflexivity|].
+  apply in_flat_map in H. destruct H as [[nm v] [Hin H]]. cbn [fst snd] in H.
+  destruct (v_sub v) as [|m ms] eqn:Es; [destruct H|].
+  destruct (assoc_mem nm (globs st)) eqn:Eg; [destruct H|]. destruct H as [<-|[]].
+  exists nm, v. repeat split; auto. rewrite Es. discriminate.
+Qed.
+
+Lemma find_all_symbol_parts : forall fx st s,
+    In s (find_all_symbol fx st) ->
+    In s (find_all_local fx (gmaps_fids (globs st)) (main_scope st)) \/
+    (exists nm v, In (nm, v) (globs st) /\ s = var_sym fx false nm v) \/
+    In s (undeclared_syms fx st).
+Proof.
+  intros fx st s Hin. unfold find_all_symbol in Hin. apply in_app_or in Hin. destruct Hin as [Hin|Hin]; [left; exact Hin|].
+  apply in_app_or in Hin. destruct Hin as [Hin|Hin]; [|right; right; exact Hin].
+  right; left. apply in_map_iff in Hin. destruct Hin as [[nm v] [Heq Hl]]. cbn [fst snd] in Heq. exists nm, v. auto.
+Qed.
+
+Lemma find_all_symbol_entry : forall (Q : vinfo -> Prop) fx st s,
+    scope_all Q (main_scope st) -> Forall (fun kv => Q (snd kv)) (globs st) -> Forall (fun kv => Q (snd kv)) (nodefs st) ->
+    In s (find_all_symbol fx st) ->
+    exists lc nm v u, Q v /\ s = set_undecl u (var_sym fx lc nm v).
+Proof.
+  intros Q fx st s Hm Hg Hn Hin. apply find_all_symbol_parts in Hin. destruct Hin as [Hin|[Hin|Hin]].
+  - destruct (find_all_local_entry Q fx _ _ _ Hm Hin) as [nm [v [HQ [_ Heq]]]]. exists true, nm, v, false.
+    rewrite var_sym_set_undecl. auto.
+  - destruct Hin as [nm [v [Hl ->]]].
+    rewrite Forall_forall in Hg. specialize (Hg _ Hl). exists false, nm, v, false. rewrite var_sym_set_undecl. auto.
+  - apply undeclared_syms_in in Hin. destruct Hin as [_ [nm [v [Hl [_ [_ ->]]]]]].
+    rewrite Forall_forall in Hn. specialize (Hn _ Hl). exists false, nm, v, true. auto.
 Qed.
 
 Lemma scope_all_True : forall scp, scope_all (fun _ => True) scp.
@@ -129,10 +170,11 @@ Proof.
 Qed.
 
 Lemma find_all_symbol_var_sym : forall fx st s,
-    In s (find_all_symbol fx st) -> exists lc nm v, s = var_sym fx lc nm v.
+    In s (find_all_symbol fx st) -> exists lc nm v u, s = set_undecl u (var_sym fx lc nm v).
 Proof.
   intros fx st s Hin.
-  destruct (find_all_symbol_entry (fun _ => True) fx st s (scope_all_True _)) as [lc [nm [v [_ H]]]]; auto.
+  destruct (find_all_symbol_entry (fun _ => True) fx st s (scope_all_True _)) as [lc [nm [v [u [_ H]]]]]; auto.
+  - apply Forall_forall. auto.
   - apply Forall_forall. auto.
   - eauto.
 Qed.
@@ -154,45 +196,89 @@ Proof. unfold end_gt, pos_le. intros. lia. Qed.
 Lemma contains_refl : forall l, contains l l = true.
 Proof. intros. unfold contains. rewrite !pos_le_refl. reflexivity. Qed.
 
-(* max_end is an upper bound of its start value and of every child's end *)
-Lemma max_end_ge_start : forall cs l c, pos_le l c (fst (max_end cs l c)) (snd (max_end cs l c)) = true.
+Lemma contains_trans : forall a b c, contains a b = true -> contains b c = true -> contains a c = true.
+Proof. unfold contains, pos_le. intros. lia. Qed.
+
+(* ------------------------------------------------------------------ Location.Union *)
+Lemma loc_union_contains_l : forall a b, contains (loc_union a b) a = true.
 Proof.
-  induction cs as [|x cs IH]; intros l c; cbn [max_end fst snd].
-  - apply pos_le_refl.
-  - destruct (end_gt (el (c_loc x)) (ec (c_loc x)) l c) eqn:E.
-    + eapply pos_le_trans; [apply end_gt_pos_le; exact E | apply IH].
-    + apply IH.
+  intros a b. unfold loc_union, loc_before, end_gt, contains, pos_le.
+  destruct ((sl a <? sl b)%Z || (sl a =? sl b)%Z && (sc a <=? sc b)%Z) eqn:E1; cbn [sl sc el ec];
+    match goal with |- context [if ?c then _ else _] => destruct c eqn:E2 end; cbn [sl sc el ec]; lia.
 Qed.
 
-Lemma max_end_ge_child : forall cs l c x,
-    In x cs -> pos_le (el (c_loc x)) (ec (c_loc x)) (fst (max_end cs l c)) (snd (max_end cs l c)) = true.
+Lemma loc_union_contains_r : forall a b, contains (loc_union a b) b = true.
 Proof.
-  induction cs as [|y cs IH]; intros l c x Hin; [destruct Hin|]. cbn [max_end].
+  intros a b. unfold loc_union, loc_before, end_gt, contains, pos_le.
+  destruct ((sl a <? sl b)%Z || (sl a =? sl b)%Z && (sc a <=? sc b)%Z) eqn:E1; cbn [sl sc el ec];
+    match goal with |- context [if ?c then _ else _] => destruct c eqn:E2 end; cbn [sl sc el ec]; lia.
+Qed.
+
+(* it is the smallest such range: each of its two ends is an end of one of the arguments *)
+Lemma loc_union_ends : forall a b,
+    ((sl (loc_union a b), sc (loc_union a b)) = (sl a, sc a) \/ (sl (loc_union a b), sc (loc_union a b)) = (sl b, sc b)) /\
+    ((el (loc_union a b), ec (loc_union a b)) = (el a, ec a) \/ (el (loc_union a b), ec (loc_union a b)) = (el b, ec b)).
+Proof.
+  intros a b. unfold loc_union.
+  destruct (loc_before a b); cbn [sl sc el ec];
+    match goal with |- context [if ?c then _ else _] => destruct c end; cbn [sl sc el ec]; auto.
+Qed.
+
+Lemma loc_union_wf : forall a b, well_formed a = true -> well_formed b = true -> well_formed (loc_union a b) = true.
+Proof.
+  intros a b. unfold loc_union, loc_before, end_gt, well_formed, pos_le.
+  destruct ((sl a <? sl b)%Z || (sl a =? sl b)%Z && (sc a <=? sc b)%Z) eqn:E1; cbn [sl sc el ec];
+    match goal with |- context [if ?c then _ else _] => destruct c eqn:E2 end; cbn [sl sc el ec]; lia.
+Qed.
+
+(* the Union of an identifier with all children *)
+Definition hull (l : loc) (cs : list csym) : loc := fold_left (fun acc c => loc_union acc (c_loc c)) cs l.
+
+Lemma hull_contains_acc : forall cs l x, contains l x = true -> contains (hull l cs) x = true.
+Proof.
+  induction cs as [|c cs IH]; intros l x H; cbn [hull fold_left]; [exact H|].
+  apply (IH (loc_union l (c_loc c))). eapply contains_trans; [apply loc_union_contains_l | exact H].
+Qed.
+
+Lemma hull_contains_self : forall cs l, contains (hull l cs) l = true.
+Proof. intros. apply hull_contains_acc. apply contains_refl. Qed.
+
+Lemma hull_contains_child : forall cs l c, In c cs -> contains (hull l cs) (c_loc c) = true.
+Proof.
+  induction cs as [|y cs IH]; intros l c Hin; [destruct Hin|]. cbn [hull fold_left].
   destruct Hin as [->|Hin].
-  - destruct (end_gt (el (c_loc x)) (ec (c_loc x)) l c) eqn:E.
-    + apply max_end_ge_start.
-    + eapply pos_le_trans; [apply not_end_gt_pos_le; exact E | apply max_end_ge_start].
-  - destruct (end_gt (el (c_loc y)) (ec (c_loc y)) l c); apply IH; exact Hin.
+  - apply (hull_contains_acc cs). apply loc_union_contains_r.
+  - apply (IH (loc_union l (c_loc y))). exact Hin.
 Qed.
 
-(* the value of max_end is its start value or the end of one of the children *)
-Lemma max_end_source : forall cs l c,
-    max_end cs l c = (l, c) \/ exists x, In x cs /\ max_end cs l c = (el (c_loc x), ec (c_loc x)).
+Lemma hull_wf : forall cs l, well_formed l = true -> (forall c, In c cs -> well_formed (c_loc c) = true) ->
+                             well_formed (hull l cs) = true.
 Proof.
-  induction cs as [|y cs IH]; intros l c; cbn [max_end]; [left; reflexivity|].
-  destruct (end_gt (el (c_loc y)) (ec (c_loc y)) l c).
-  - destruct (IH (el (c_loc y)) (ec (c_loc y))) as [H|[x [Hx H]]].
-    + right. exists y. split; [left; reflexivity | exact H].
-    + right. exists x. split; [right; exact Hx | exact H].
-  - destruct (IH l c) as [H|[x [Hx H]]]; [left; exact H|].
-    right. exists x. split; [right; exact Hx | exact H].
+  induction cs as [|y cs IH]; intros l Hl Hc; cbn [hull fold_left]; [exact Hl|].
+  apply (IH (loc_union l (c_loc y))).
+  - apply loc_union_wf; [exact Hl | apply Hc; left; reflexivity].
+  - intros c Hin. apply Hc. right; exact Hin.
 Qed.
 
-Lemma parent_loc_fixed : forall l cs,
-    parent_loc true l cs = mkLoc (sl l) (sc l) (fst (max_end cs (el l) (ec l))) (snd (max_end cs (el l) (ec l))).
-Proof. intros. unfold parent_loc. destruct (max_end cs (el l) (ec l)). reflexivity. Qed.
+(* smallest: its start is the start of the identifier or of a child, and so is its end *)
+Lemma hull_ends : forall cs l,
+    ((sl (hull l cs), sc (hull l cs)) = (sl l, sc l) \/ exists c, In c cs /\ (sl (hull l cs), sc (hull l cs)) = (sl (c_loc c), sc (c_loc c))) /\
+    ((el (hull l cs), ec (hull l cs)) = (el l, ec l) \/ exists c, In c cs /\ (el (hull l cs), ec (hull l cs)) = (el (c_loc c), ec (c_loc c))).
+Proof.
+  induction cs as [|y cs IH]; intros l; cbn [hull fold_left]; [auto|].
+  destruct (IH (loc_union l (c_loc y))) as [Hs He]. destruct (loc_union_ends l (c_loc y)) as [Us Ue]. split.
+  - destruct Hs as [Hs|[c [Hc Hs]]].
+    + unfold hull in Hs. rewrite Hs. destruct Us as [Us|Us]; [left; exact Us | right; exists y; split; [left; reflexivity | exact Us]].
+    + right. exists c. split; [right; exact Hc | exact Hs].
+  - destruct He as [He|[c [Hc He]]].
+    + unfold hull in He. rewrite He. destruct Ue as [Ue|Ue]; [left; exact Ue | right; exists y; split; [left; reflexivity | exact Ue]].
+    + right. exists c. split; [right; exact Hc | exact He].
+Qed.
 
-(* ------------------------------------------------------------------ the range rule of one entry (fx = true) *)
+Lemma parent_loc_all : forall l cs, parent_loc fx_all l cs = hull l cs.
+Proof. reflexivity. Qed.
+
+(* ------------------------------------------------------------------ the range rule of one entry *)
 (* fields that do not depend on the range rule *)
 Lemma var_sym_decl : forall fx lc nm v, s_decl (var_sym fx lc nm v) = v_loc v.
 Proof. intros. unfold var_sym. destruct (v_func v); [reflexivity|]. destruct (v_sub v); reflexivity. Qed.
@@ -203,61 +289,70 @@ Proof. intros. unfold var_sym. destruct (v_func v); [reflexivity|]. destruct (v_
 Lemma var_sym_local : forall fx lc nm v, s_local (var_sym fx lc nm v) = lc.
 Proof. intros. unfold var_sym. destruct (v_func v); [reflexivity|]. destruct (v_sub v); reflexivity. Qed.
 
+Lemma var_sym_undecl : forall fx lc nm v, s_undecl (var_sym fx lc nm v) = false.
+Proof. intros. unfold var_sym. destruct (v_func v); [reflexivity|]. destruct (v_sub v); reflexivity. Qed.
+
 Lemma var_sym_fn : forall fx lc nm v, s_fn (var_sym fx lc nm v) = is_some (v_func v).
 Proof. intros. unfold var_sym. destruct (v_func v); [reflexivity|]. destruct (v_sub v); reflexivity. Qed.
 
-Lemma var_sym_fn_loc : forall fx lc nm v fi, v_func v = Some fi -> s_loc (var_sym fx lc nm v) = f_loc fi.
+Lemma var_sym_fn_loc : forall fx lc nm v fi,
+    v_func v = Some fi -> s_loc (var_sym fx lc nm v) = fn_range fx (f_loc fi) (v_loc v).
 Proof. intros fx lc nm v fi H. unfold var_sym. rewrite H. reflexivity. Qed.
 
 Lemma var_sym_children : forall fx lc nm v,
     s_children (var_sym fx lc nm v) =
-    match v_func v with Some _ => [] | None => map (fun kv => child_sym nm (fst kv) (snd kv)) (v_sub v) end.
+    match v_func v with Some _ => [] | None => map (fun kv => child_sym fx nm (fst kv) (snd kv)) (v_sub v) end.
 Proof. intros. unfold var_sym. destruct (v_func v); [reflexivity|]. destruct (v_sub v); reflexivity. Qed.
 
 Lemma var_sym_nonfn_loc : forall lc nm v,
     v_func v = None ->
-    s_loc (var_sym true lc nm v) = parent_loc true (v_loc v) (s_children (var_sym true lc nm v)).
+    s_loc (var_sym fx_all lc nm v) = hull (v_loc v) (s_children (var_sym fx_all lc nm v)).
 Proof.
   intros lc nm v H. rewrite var_sym_children. unfold var_sym. rewrite H.
-  destruct (v_sub v) as [|kv r]; [|reflexivity].
-  cbn [s_loc map]. rewrite parent_loc_fixed. cbn [max_end fst snd]. destruct (v_loc v); reflexivity.
+  destruct (v_sub v) as [|kv r]; reflexivity.
 Qed.
 
-(* an entry that is not function-valued: starts at the declaring identifier, ends at the largest end *)
-Lemma var_sym_nonfn_range : forall lc nm v,
-    s_fn (var_sym true lc nm v) = false ->
-    let s := var_sym true lc nm v in
-    sl (s_loc s) = sl (s_decl s) /\ sc (s_loc s) = sc (s_decl s) /\
-    pos_le (el (s_decl s)) (ec (s_decl s)) (el (s_loc s)) (ec (s_loc s)) = true /\
-    (forall c, In c (s_children s) -> pos_le (el (c_loc c)) (ec (c_loc c)) (el (s_loc s)) (ec (s_loc s)) = true) /\
+(* every entry contains its declaring identifier and each of its children; it is the smallest such range *)
+Lemma var_sym_contains_decl : forall lc nm v,
+    contains (s_loc (var_sym fx_all lc nm v)) (s_decl (var_sym fx_all lc nm v)) = true.
+Proof.
+  intros lc nm v. rewrite var_sym_decl. destruct (v_func v) as [fi|] eqn:Ef.
+  - rewrite (var_sym_fn_loc fx_all lc nm v fi Ef). apply loc_union_contains_r.
+  - rewrite (var_sym_nonfn_loc lc nm v Ef). apply hull_contains_self.
+Qed.
+
+Lemma var_sym_contains_child : forall lc nm v c,
+    In c (s_children (var_sym fx_all lc nm v)) -> contains (s_loc (var_sym fx_all lc nm v)) (c_loc c) = true.
+Proof.
+  intros lc nm v c Hc. destruct (v_func v) as [fi|] eqn:Ef.
+  - rewrite var_sym_children, Ef in Hc. destruct Hc.
+  - rewrite (var_sym_nonfn_loc lc nm v Ef). apply hull_contains_child. exact Hc.
+Qed.
+
+Lemma var_sym_nonfn_ends : forall lc nm v,
+    s_fn (var_sym fx_all lc nm v) = false ->
+    let s := var_sym fx_all lc nm v in
+    ((sl (s_loc s), sc (s_loc s)) = (sl (s_decl s), sc (s_decl s)) \/
+     exists c, In c (s_children s) /\ (sl (s_loc s), sc (s_loc s)) = (sl (c_loc c), sc (c_loc c))) /\
     ((el (s_loc s), ec (s_loc s)) = (el (s_decl s), ec (s_decl s)) \/
      exists c, In c (s_children s) /\ (el (s_loc s), ec (s_loc s)) = (el (c_loc c), ec (c_loc c))).
 Proof.
   intros lc nm v Hfn s. subst s. rewrite var_sym_fn in Hfn.
   destruct (v_func v) as [fi|] eqn:Ef; [discriminate|].
-  rewrite (var_sym_nonfn_loc lc nm v Ef), var_sym_decl, parent_loc_fixed. cbn [sl sc el ec].
-  repeat split.
-  - apply max_end_ge_start.
-  - intros c Hc. apply max_end_ge_child. exact Hc.
-  - destruct (max_end_source (s_children (var_sym true lc nm v)) (el (v_loc v)) (ec (v_loc v))) as [H|[x [Hx H]]].
-    + left. rewrite H. reflexivity.
-    + right. exists x. split; [exact Hx|]. rewrite H. reflexivity.
+  rewrite (var_sym_nonfn_loc lc nm v Ef), var_sym_decl. apply hull_ends.
 Qed.
 
-Lemma var_sym_nonfn_contains : forall lc nm v,
-    s_fn (var_sym true lc nm v) = false ->
-    contains (s_loc (var_sym true lc nm v)) (s_decl (var_sym true lc nm v)) = true.
+Lemma child_sym_contains_decl : forall pre k v, contains (c_loc (child_sym fx_all pre k v)) (c_decl (child_sym fx_all pre k v)) = true.
 Proof.
-  intros lc nm v Hfn. destruct (var_sym_nonfn_range lc nm v Hfn) as [H1 [H2 [H3 _]]].
-  unfold contains. rewrite H1, H2, pos_le_refl, H3. reflexivity.
+  intros pre k v. unfold child_sym. destruct (v_func v); cbn [c_loc c_decl]; [apply loc_union_contains_r | apply contains_refl].
 Qed.
 
 (* children that are not function-valued are located at their declaring identifier *)
-Lemma child_sym_nonfn : forall pre k v, c_fn (child_sym pre k v) = false -> c_loc (child_sym pre k v) = c_decl (child_sym pre k v).
-Proof. intros pre k v. unfold child_sym. destruct (v_func v); cbn; [discriminate | reflexivity]. Qed.
+Lemma child_sym_nonfn : forall fx pre k v, c_fn (child_sym fx pre k v) = false -> c_loc (child_sym fx pre k v) = c_decl (child_sym fx pre k v).
+Proof. intros fx pre k v. unfold child_sym. destruct (v_func v); cbn; [discriminate | reflexivity]. Qed.
 
 Lemma var_sym_child_form : forall fx lc nm v c,
-    In c (s_children (var_sym fx lc nm v)) -> exists k sv, In (k, sv) (v_sub v) /\ v_func v = None /\ c = child_sym nm k sv.
+    In c (s_children (var_sym fx lc nm v)) -> exists k sv, In (k, sv) (v_sub v) /\ v_func v = None /\ c = child_sym fx nm k sv.
 Proof.
   intros fx lc nm v c H. rewrite var_sym_children in H. destruct (v_func v); [destruct H|].
   apply in_map_iff in H. destruct H as [[k sv] [Heq Hin]]. exists k, sv. cbn [fst snd] in Heq. auto.
